@@ -2,6 +2,7 @@ package main
 
 import (
 	"fmt"
+	"sort"
 	"go/token"
 	"go/types"
 	"strings"
@@ -337,6 +338,9 @@ func (ex *Exec) applyContract(fr *Frame, name string, sig *types.Signature, ct *
 	if ct.Trusted {
 		ex.assumes["assumed contract: "+ct.Key] = true
 	}
+	if hasStr(ct.AssignsTags, "assumed") {
+		ex.assumes["ASSUMED frame of "+ct.Key+" (its assigns clause is not proved from its body)"] = true
+	}
 	env := &SpecEnv{ex: ex, pkg: ct.Pkg, vars: map[string]specBinding{}, cur: st, old: st, slSt: map[*SliceV]*State{}}
 	failed := false
 	func() {
@@ -373,6 +377,40 @@ func (ex *Exec) applyContract(fr *Frame, name string, sig *types.Signature, ct *
 	for k := 0; k < rs.Len(); k++ {
 		nm := fmt.Sprintf("ret%d$%s", k, shortName(name))
 		rets = append(rets, freshVal(nm, rs.At(k).Type()))
+	}
+	if ct.Pure {
+		// a pure function is an uninterpreted function of its arguments and of the heap
+		// components reachable (by type) from them: two calls in the same state agree
+		var fargs []*Term
+		for _, a := range args {
+			fargs = append(fargs, flat(a)...)
+		}
+		seen := map[string]bool{}
+		var names []string
+		if sig.Recv() != nil {
+			ex.reachableComps(sig.Recv().Type(), seen, &names, 0)
+		}
+		for i := 0; i < sig.Params().Len(); i++ {
+			ex.reachableComps(sig.Params().At(i).Type(), seen, &names, 0)
+		}
+		sort.Strings(names)
+		var comps []*Term
+		var known []string
+		for _, n := range names {
+			if srt, ok := compSorts[n]; ok {
+				comps = append(comps, ex.get(st, n, srt))
+				known = append(known, n)
+			}
+		}
+		sigName := fmt.Sprintf("pure$%s$%08x", shortName(name), hashStr(strings.Join(known, ",")))
+		for k := 0; k < rs.Len(); k++ {
+			ls := leaves(rs.At(k).Type())
+			ts := make([]*Term, len(ls))
+			for i, l := range ls {
+				ts[i] = App(fmt.Sprintf("%s$%d%s", sigName, k, l.path), l.sort, append(append([]*Term{}, fargs...), comps...)...)
+			}
+			rets[k] = unflat(rs.At(k).Type(), ts)
+		}
 	}
 	// frame
 	func() {
@@ -436,6 +474,9 @@ func (ex *Exec) applyContract(fr *Frame, name string, sig *types.Signature, ct *
 		for _, cl := range ct.Clauses {
 			if cl.Kind != "ensures" || cl.Expr == nil {
 				continue
+			}
+			if hasStr(cl.Tags, "assumed") {
+				ex.assumes["ASSUMED postcondition of "+ct.Key+" (not proved from its body): "+cl.Src] = true
 			}
 			pc = And(pc, ex.evalBool(cl.Expr, env))
 		}
@@ -828,9 +869,11 @@ func (ex *Exec) nativeModel(fr *Frame, fn *ssa.Function, args []Val, st *State, 
 	if pkg == "sync/atomic" && fn.Signature.Recv() == nil && len(args) > 0 {
 		p := args[0].(*Term)
 		et := fn.Signature.Params().At(0).Type().(*types.Pointer).Elem()
-		g := Neq(p, Null)
-		ex.safety(fr, "nil", pos, *pc, g, "atomic operation on nil pointer")
-		*pc = And(*pc, g)
+		if !(p.op == "app" && (strings.HasPrefix(p.name, "fld$") || strings.HasPrefix(p.name, "elem$") || strings.HasPrefix(p.name, "glob$"))) {
+			g := Neq(p, Null)
+			ex.safety(fr, "nil", pos, *pc, g, "atomic operation on nil pointer")
+			*pc = And(*pc, g)
+		}
 		ex.atomicOps[ex.posOf(pos)] = true
 		switch {
 		case strings.HasPrefix(name, "Add"):
@@ -888,4 +931,74 @@ func (ex *Exec) logCall(sig *types.Signature, st *State, pc *Term) (Val, *Term) 
 		}
 	}
 	return rv, pc
+}
+
+// reachableComps lists the heap components reachable by type from a value of type t.
+func (ex *Exec) reachableComps(t types.Type, seen map[string]bool, out *[]string, depth int) {
+	k := typeKey(t)
+	if seen["T:"+k] || depth > 6 {
+		return
+	}
+	seen["T:"+k] = true
+	add := func(n, srt string) {
+		if !seen[n] {
+			seen[n] = true
+			*out = append(*out, n)
+			if _, ok := compSorts[n]; !ok {
+				compSorts[n] = srt
+			}
+		}
+	}
+	switch u := under(t).(type) {
+	case *types.Pointer:
+		el := u.Elem()
+		switch eu := under(el).(type) {
+		case *types.Struct:
+			for i := 0; i < eu.NumFields(); i++ {
+				ft := eu.Field(i).Type()
+				if aggregate(ft) {
+					ex.reachableComps(types.NewPointer(ft), seen, out, depth+1)
+					continue
+				}
+				for _, l := range leaves(ft) {
+					n, srt := fieldComp(el, i, l)
+					add(n, srt)
+				}
+				ex.reachableComps(ft, seen, out, depth+1)
+			}
+		case *types.Array:
+			ex.reachableComps(types.NewSlice(eu.Elem()), seen, out, depth+1)
+		default:
+			for _, l := range leaves(el) {
+				n, srt := cellComp(el, l)
+				add(n, srt)
+			}
+			ex.reachableComps(el, seen, out, depth+1)
+		}
+	case *types.Slice:
+		et := u.Elem()
+		if aggregate(et) {
+			ex.reachableComps(types.NewPointer(et), seen, out, depth+1)
+		} else {
+			for _, l := range leaves(et) {
+				n, srt := elemComp(et, l)
+				add(n, srt)
+			}
+			ex.reachableComps(et, seen, out, depth+1)
+		}
+	case *types.Struct:
+		for i := 0; i < u.NumFields(); i++ {
+			ex.reachableComps(u.Field(i).Type(), seen, out, depth+1)
+		}
+	case *types.Map:
+		has, ln, vals, ks, ok := mapComps(u)
+		if ok {
+			add(has, ArrSort(SRef, ArrSort(ks, SBool)))
+			add(ln, ArrSort(SRef, BV(64)))
+			for i, v := range vals {
+				add(v, ArrSort(SRef, ArrSort(ks, leaves(u.Elem())[i].sort)))
+			}
+		}
+		ex.reachableComps(u.Elem(), seen, out, depth+1)
+	}
 }
